@@ -130,13 +130,13 @@ def r1(ctx, rep, prog):
 
 def r2(ctx, rep):
     f = [x for x in ctx.fns(file='rust_types.rs', name='try_from')][0]
-    nm = [m for m in f['matches'] if any(v.startswith('lit:') for a in m['arms'] for v in a['variants'])]
-    if not nm:
-        raise core.Incomplete('try_from: name dispatch not found')
+    # asked of the inlined, specialised parser (vlib/typeparser.py): every outcome for a path named u64/i64/usize/isize is an
+    # error — whether the dispatch is a match arm, a constant table or an early return
+    from .. import typeparser as tp
     for name in ('u64', 'i64', 'usize', 'isize'):
-        arms = [a for a in nm[0]['arms'] if f'lit:"{name}"' in a['variants']]
-        ok = bool(arms) and re.search(r'return\s+Err\s*\(', arms[0]['body']) is not None
-        rep.check(ok, 'R2', f'try_from:{name}', 'rejected', f"RustType::try_from no longer rejects `{name}` (documented as unsupported: not representable in every target)", {'file': f['file'], 'line': arms[0]['line'] if arms else f['line']})
+        outs = tp.outcomes_for(ctx, name)
+        acc = [o for o in outs if not tp.is_err(o)]
+        rep.check(bool(outs) and not acc, 'R2', f'try_from:{name}', 'rejected', f"RustType::try_from no longer rejects `{name}` (documented as unsupported: not representable in every target): it yields `{vt.show(acc[0])[:70] if acc else 'nothing'}`", {'file': f['file'], 'line': f['line']})
     top = [m for m in f['matches'] if any('Type::Tuple' in v for a in m['arms'] for v in a['variants'])]
     arms = [a for a in top[0]['arms'] if any('Type::Tuple' in v for v in a['variants'])] if top else []
     # every arm over Type::Tuple either rejects, or is the empty tuple `()` (a guard testing that there are no elements)
@@ -150,9 +150,12 @@ def r2(ctx, rep):
             sides = [vt.show(vt.strip(x)) for x in g['args']]
             return any('elems' in x and ('len()' in x or 'count()' in x) for x in sides) and any(x.strip("'") == '0' for x in sides)
         return False
-    accepting = [a for a in arms if not (a.get('diverges') and 'Err' in a['body'])]
+    def rejects(a):
+        # `return Err(..)` inside an `Ok(match ..)`, or the arm's value is itself `Err(..)`
+        return (a.get('diverges') and 'Err' in a['body']) or tp.is_err(a.get('value'))
+    accepting = [a for a in arms if not rejects(a)]
     bad = [a for a in accepting if not (a.get('guard') is not None and empty_test(a['guard']) and 'Unit' in a['body'])]
-    rejecting = [a for a in arms if a.get('diverges') and 'Err' in a['body'] and a.get('guard') is None]
+    rejecting = [a for a in arms if rejects(a) and a.get('guard') is None]
     ok = bool(rejecting) and not bad
     rep.check(ok, 'R2', 'try_from:tuple', '() accepted, other tuples rejected', 'RustType::try_from: ' + (f"a tuple type is accepted by the arm `{bad[0]['pat'][:40]}{' if ' + vt.show(bad[0]['guard'])[:50] if bad[0].get('guard') else ''}` — only the empty tuple `()` is supported, every other tuple (including `(T,)`) must be rejected" if bad else 'non-empty tuples are no longer rejected'), {'file': f['file'], 'line': (bad[0]['line'] if bad else f['line'])})
 
